@@ -117,6 +117,17 @@ def rand_key(nrng, shape):
         return int(nrng.integers(-n0, n0)) if n0 else 0
     if kind == 1:
         a, b = sorted(int(v) for v in nrng.integers(-n0 - 1, n0 + 2, 2))
+        form = int(nrng.integers(8))
+        if form == 0:
+            return slice(None, None, int(nrng.choice([-1, -2, -3])))           # reversed views with open bounds
+        if form == 1:
+            return slice(b, None, -1)
+        if form == 2:
+            return slice(b, -n0 - 5, int(nrng.choice([-1, -2])))
+        if form == 3:
+            return slice(b, a, -1)                                              # a genuine backwards range
+        if form == 4:
+            return slice(None, b, None)
         return slice(a, b, [None, 1, 2, -1][nrng.integers(4)])
     if kind == 2:
         return nrng.random(n0) < 0.5
@@ -227,6 +238,19 @@ def run_case(case, obs):
         ok = len(items) == len(bx) and all(isinstance(it, PixCoord) and arr_same(it.x, ex) and arr_same(it.y, ey)
                                            for it, ex, ey in zip(items, bx, by))
         obs.check(ok, 'iter-mismatch', f'iteration over shape {bx.shape} differs from iterating x and y', 'iter')
+        # iterations are independent of each other, as for the arrays: nested loops, two iterators alive at once, zip with itself
+        n = len(bx)
+        npairs = sum(1 for _a in p for _b in p)
+        it1, it2 = iter(p), iter(p)
+        inter = []
+        for _ in range(min(n, 3)):
+            inter.append((next(it1), next(it2)))
+        zipped = list(zip(p, p))
+        ok2 = npairs == n * n and len(zipped) == n and all(arr_same(a.x, b.x) and arr_same(a.y, b.y) for a, b in inter + zipped) \
+            and all(arr_same(a.x, ex) for (a, _b), ex in zip(zipped, bx))
+        obs.check(ok2, 'iter-mismatch', f'concurrent iterations over one PixCoord of length {n} disturb each other ({npairs} pairs from a nested loop, '
+                  f'{len(zipped)} from zip(p, p))', 'iter')
+        obs.check(len(list(p)) == n, 'iter-mismatch', 'a second pass over the same PixCoord gives a different number of items', 'iter')
     elif lane == 'addsub':
         good = broadcastable(sx, sy)
         a_x, a_y = rand_arr(nrng, sx, case['dt']), rand_arr(nrng, sx, case['dt'])
